@@ -753,15 +753,31 @@ class List(list, base.Symbolic, pg_typing.CustomTyping):
     """Sorts the items of the list in place.."""
     if base.treats_as_sealed(self):
       raise base.WritePermissionError('Cannot sort a sealed List.')
+    old_items = list(self.sym_values())
     super().sort(key=key, reverse=reverse)
-    self._reindex_children()
+    self._on_reordered(old_items)
 
   def reverse(self) -> None:
     """Reverse the elements of the list in place."""
     if base.treats_as_sealed(self):
       raise base.WritePermissionError('Cannot reverse a sealed List.')
+    old_items = list(self.sym_values())
     super().reverse()
+    self._on_reordered(old_items)
+
+  def _on_reordered(self, old_items: typing.List[Any]) -> None:
+    """Re-indexes children and notifies after an in-place reordering."""
     self._reindex_children()
+    if not flags.is_change_notification_enabled():
+      return
+    field = self._value_spec.element if self._value_spec else None
+    updates = []
+    for i, (old, new) in enumerate(zip(old_items, self.sym_values())):
+      if old is not new:
+        updates.append(
+            base.FieldUpdate(self.sym_path + i, self, field, old, new))
+    if updates:
+      self._notify_field_updates(updates)
 
   def custom_apply(
       self,
